@@ -351,7 +351,7 @@ def run(ctx):
         ctx.anchor(n_pid_paths >= 2 and set(seen_kinds) == {'wrap', 'normal'}, PA + '::allocate: a wrap path and a normal path that return a pid')
 
     # ---- clause 4: reference_counter discipline -----------------------------------------
-    ctx.rule('C16.4-atomic-rmw', 'reference_counter is only touched through atomic read-modify-write (fetch_add); never load+store', floor=4)
+    ctx.rule('C16.4-atomic-rmw', 'reference_counter is only touched through atomic read-modify-write (fetch_add); never load+store', floor=1)
     n = 0
     for B in P.all('edp_node'):
         seen = {}
